@@ -289,9 +289,9 @@ Lemma apply_plan_moves ws lim s plan :
 Proof.
   unfold apply_plan. revert s. induction plan as [|[e o] r IH]; intros s H; cbn [fold_left]; [apply moves_refl|].
   eapply moves_trans; [|apply IH; intros eo Heo; apply H; right; exact Heo].
-  cbn [fst snd].
-  pose proof (moves_cancel ws s e) as M1.
-  destruct (cancel_want s e) as [s1 had]. cbn [fst] in M1.
+  cbn [fst snd]. cbn zeta.
+  pose proof (moves_cancel ws s (fst e)) as M1.
+  destruct (cancel_want s (fst e)) as [s1 had]. cbn [fst] in M1.
   eapply moves_trans; [exact M1|].
   eapply moves_trans; [|apply moves_wants; apply (H (e, o)); left; reflexivity].
   destruct had; [apply moves_deltask|apply moves_refl].
@@ -805,7 +805,7 @@ Proof.
     split; [exact HI|split].
     + unfold send_clause, obs_step; cbn [so_drain]. apply send_all_intro. intros i Hi.
       assert (Hi' : (i < length (peers s))%nat) by (rewrite I2, <- Hlen; exact Hi). clear Hi. rename Hi' into Hi.
-      destruct (Hnth i Hi) as [N1 _]. rewrite N1. cbn [Nat.add].
+      destruct (Hnth i Hi) as [N1 _]. subst rs. rewrite N1. cbn [Nat.add].
       pose proof (drain_peer_facts g i (bs s) (gadded gs) (gremoved gs) _ _ (I3 i Hi)) as [_ F].
       unfold send_ok, gview_of. rewrite <- I1. exact F.
     + unfold view_clause, obs_step; cbn [so_peers]. apply (Hview _ _ HI).
@@ -851,4 +851,20 @@ Proof.
   apply andb_true_iff in Hc. destruct Hc as [Hc _].
   destruct (M2 c Hc) as [H|(w & Hw & Hcw)]; [cbn in H; discriminate|].
   exists w. destruct (Sw w Hw) as (Wi & Wc & _). auto.
+Qed.
+
+(** a decidable form of [wf_op], used to discharge the hypothesis on concrete histories *)
+Fixpoint nodupb (l : list nat) : bool :=
+  match l with [] => true | x :: r => negb (nmem x r) && nodupb r end.
+Lemma nodupb_NoDup l : nodupb l = true -> NoDup l.
+Proof.
+  induction l as [|x r IH]; cbn [nodupb]; intros H; [constructor|].
+  apply andb_true_iff in H. destruct H as [H1 H2]. constructor; [|apply IH, H2].
+  intros Hin. apply nmem_In in Hin. rewrite Hin in H1. discriminate.
+Qed.
+Definition wf_opb (o : op) : bool := match o with OMsg _ _ ents => nodupb (map w_cid ents) | _ => true end.
+Lemma wf_opsb_ok ops : forallb wf_opb ops = true -> Forall wf_op ops.
+Proof.
+  intros H. apply Forall_forall. intros o Ho. rewrite forallb_forall in H. specialize (H o Ho).
+  destruct o; cbn in *; auto. apply nodupb_NoDup, H.
 Qed.
